@@ -43,6 +43,16 @@ func InstallExtensions() {
 	soyjs.Funcs["vfail"] = soyjs.Func{Name: "vfail", Apply: func(js soyjs.JSWriter, args []ast.Node) {
 		js.Write("vfail(", args[0], ")")
 	}, ValidArgLengths: []int{1}}
+	// vpush(list, x) is written the way an application would write it: append to the argument
+	soyhtml.Funcs["vpush"] = soyhtml.Func{Apply: func(args []data.Value) data.Value {
+		if l, ok := args[0].(data.List); ok {
+			return append(l, args[1])
+		}
+		return args[0]
+	}, ValidArgLengths: []int{2}}
+	soyjs.Funcs["vpush"] = soyjs.Func{Name: "vpush", Apply: func(js soyjs.JSWriter, args []ast.Node) {
+		js.Write("vpush(", args[0], ", ", args[1], ")")
+	}, ValidArgLengths: []int{2}}
 	soyjs.PrintDirectives["vfail"] = soyjs.PrintDirective{Name: "vfail"}
 	soyjs.PrintDirectives["vbang"] = soyjs.PrintDirective{Name: "vbang"}
 	soyjs.PrintDirectives["vq"] = soyjs.PrintDirective{Name: "vq", CancelAutoescape: true}
@@ -74,11 +84,18 @@ func NewBundle(c *gen.Case, order []int) *soy.Bundle {
 			b.AddTemplateString(c.Files[i].Name, c.Files[i].Source())
 		}
 	}
+	if SharedGlobals != nil {
+		// one globals map handed to several bundles (an application-wide configuration map)
+		b.AddGlobalsMap(SharedGlobals)
+	}
 	if len(c.Globals) > 0 {
 		b.AddGlobalsMap(c.GlobalsMap())
 	}
 	return b
 }
+
+// SharedGlobals, if set, is added to every bundle built by NewBundle before the case's own globals.
+var SharedGlobals data.Map
 
 // Compile compiles the case.
 func Compile(c *gen.Case) (*Compiled, error) {
